@@ -135,7 +135,8 @@ Proof. split; [exact unguarded_exact_within_pinned | exact unguarded_square_with
 Theorem C19_base_class_guarded :
   forallb (fun e => exact_guarded ("LinearOperator"%string, e)) exact_entries = true /\
   forallb (fun e => square_guarded ("LinearOperator"%string, e))
-          [E_solve; E_inv_quad; E_add_diagonal; E_diagonalization; E_root_decomposition; E_root_inv_decomposition] = true.
+          [E_solve; E_inv_quad; E_add_diagonal; E_diagonalization; E_root_decomposition; E_root_inv_decomposition;
+           E_cholesky] = true.
 Proof. exact base_class_guarded. Qed.
 
 (* FINITE TABLE: constructors of classes with their own _check_args reach LinearOperator.__init__ *)
@@ -230,6 +231,12 @@ Proof. intros. apply add_zero_operand_refuted; assumption. Qed.
 (* FINITE (regenerated): the `_matmul` / `_t_matmul` closures and `_size` methods that call _matmul_broadcast_shape
    themselves on the pinned tree still do — they are the only shape check on the CG route of the generic solve, which hands
    `self._matmul` to linear_cg without a check of its own for 2-D right-hand sides *)
+(* FINITE (regenerated): the 30 classes whose `solve` calls _matmul_broadcast_shape on the right-hand side on some path (base
+   class since the solve-rhs fix, Identity, Kronecker triangular, LowRankRootAddedDiag) still do — also where a check further down
+   would still catch the bad right-hand side (LowRankRootAddedDiag: DiagLinearOperator.solve inside the Woodbury formula) *)
+Theorem C19_solve_rhs_guards_kept : forallb solve_has_mm pinned_solve_mm_classes = true.
+Proof. exact solve_guards_kept. Qed.
+
 Theorem C19_matmul_closure_guards_kept :
   forallb (fun h => existsb (String.eqb h) helper_guards) pinned_helper_guards = true.
 Proof. exact helper_guards_kept. Qed.
